@@ -525,3 +525,83 @@ def delay_names(chk):
                        detail="%s uses delay name %r (%s) but arms only %s" % (cn, name, ", ".join(sorted({x.name for x, _ in sites})), sorted(arm)),
                        construct=m.ident, text="delay name %s used but never armed in %s" % (name, cn))
     chk.ob("NAME-0", "delay names used by the analysed classes are names those classes arm (%d names)" % n, True, "mpf:1", nontrivial=False)
+
+
+# ---------------------------------------------------------------------------------------------------------- REARM-0
+_POS_REARM = """
+class A:
+    def _update(self, future=None):
+        value, sub = self._template.evaluate_and_subscribe([])
+        if value == self.value:
+            return
+        self.value = value
+        sub.add_done_callback(self._update)
+"""
+
+
+def _anchor_idents(chk):
+    import json
+    import os
+    idents = set(chk.funcs_analysed)
+    try:
+        here = os.path.dirname(os.path.dirname(os.path.abspath(__file__)))
+        for ln in open(os.path.join(here, "properties.jsonl")):
+            d = json.loads(ln)
+            if d["id"] == chk.prop:
+                for rel in d["anchors"]["files"]:
+                    if rel in chk.repo.modules:
+                        idents |= {f.ident for f in chk.repo.modules[rel].all_funcs()}
+    except OSError:
+        pass
+    return idents
+
+
+def _unarmed_subscriptions(fn_node, cfg):
+    """A callback that re-subscribes itself (one-shot futures from evaluate_and_subscribe, `add_done_callback(<itself>)`): node ids of
+    evaluate_and_subscribe calls from which some returning path does not register the callback again."""
+    name = fn_node.name
+    arms = []
+    for n in cfg.nodes:
+        if n.kind != "stmt":
+            continue
+        for c in n.calls():
+            if isinstance(c.func, ast.Attribute) and c.func.attr == "add_done_callback" and \
+                    any(isinstance(a, ast.Attribute) and a.attr == name for x in c.args for a in ast.walk(x)):
+                arms.append(n.id)
+    if not arms:
+        return [], 0
+    out = []
+    subs = [n for n in cfg.nodes if n.kind == "stmt" and any(isinstance(c.func, ast.Attribute) and c.func.attr == "evaluate_and_subscribe" for c in n.calls())]
+    for n in subs:
+        w = cfg.path_avoiding(n.id, [cfg.exit.id], arms, ignore_exc=True)
+        if w is not None:
+            out.append((n, w))
+    return out, len(subs)
+
+
+def subscriptions_rearmed(chk):
+    from sa.cfg import CFG
+
+    pos = ast.parse(_POS_REARM).body[0].body[0]
+    try:
+        pc = CFG(pos)
+        if len(_unarmed_subscriptions(pos, pc)[0]) != 1:
+            chk.pending_errors.append("REARM-0 detector does not match its positive example")
+    except Exception as e:     # noqa
+        chk.pending_errors.append("REARM-0 positive example could not be analysed: %r" % (e,))
+    n = k = 0
+    for ident in sorted(_anchor_idents(chk)):
+        rel, qual = ident.split("::", 1)
+        f = chk.repo.try_func(rel, qual)
+        if f is None or not any(isinstance(x, ast.Attribute) and x.attr == "add_done_callback" for x in ast.walk(f.node)):
+            continue
+        n += 1
+        cfg = f.cfg()
+        bad, cnt = _unarmed_subscriptions(f.node, cfg)
+        k += cnt
+        for node, w in bad:
+            chk.ob("REARM-0", "a callback that re-subscribes itself does so on every returning path after it evaluated the template", False, f.where(node.ast),
+                   detail="the future handed out by evaluate_and_subscribe fires once: a path that returns without add_done_callback(%s) "
+                          "ends the subscription and every later change goes unnoticed" % f.name, construct=ident,
+                   text="subscription of %s not renewed" % f.name, path=cfg.fmt_path(w, f))
+    chk.ob("REARM-0", "self-renewing subscriptions renew on every path (%d functions, %d subscriptions)" % (n, k), True, "mpf:1", nontrivial=False)
